@@ -27,7 +27,7 @@ Statuses == {"active", "blocked", "stopped", "archived"}
 Zones    == {"", "UTC", "Africa/Kigali"}
 UrnIds   == {1, 2, 3}      \* 1,2: tel URNs; 3: a twitterid URN (a scheme the tel channel does not support); 0 is an invalid URN
 Static   == {"s1", "s2"}
-Query    == {"qn", "qf", "qu", "ql", "qt"}   \* name = "bob" | f1 != "" | tel != "" | language = "fra" | tickets > 0
+Query    == {"qn", "qf", "qu", "ql", "qt", "qx"}   \* name = "bob" | f1 != "" | tel != "" | language = "fra" | tickets > 0 | tel != <URN 2>
 Groups   == Static \cup Query
 Channels == {"none", "A", "R"}   \* A: tel channel that can send; R: receive-only channel
 
@@ -46,6 +46,7 @@ QMatch(g, c) ==
     [] g = "qu" -> \E i \in DOMAIN c.urns : IsTel(c.urns[i].id)
     [] g = "ql" -> c.lang = "fra"
     [] g = "qt" -> c.ticket
+    [] g = "qx" -> \A i \in DOMAIN c.urns : c.urns[i].id # 2       \* != holds when EVERY value differs (none at all included)
 
 Qualifies(g, c) == c.status = "active" /\ QMatch(g, c)
 
